@@ -16,15 +16,15 @@ var mixC10 = Mix{Set: 24, Delete: 10, Get: 2, GetItem: 3, MinMax: 2, Visit: 3, I
 func init() {
 	register(&Prop{
 		ID: "C10", Level: "exploration",
-		Rule: "case = 2-3 stores (file-backed and memory-only) in one process, sharing gkvlite's package-global free lists, each with 1-3 collections; every step picks a store and performs one operation: mutations, visits that are SUSPENDED inside their callback while later steps run and are resumed afterwards (readers holding version pins), snapshots (and snapshots of snapshots) released in arbitrary order, SetCollection on existing names, RemoveCollection, Close, re-open, FlushRevert, and mutations that fail half way because one file read fails (after which later successful mutations supersede the touched nodes). After EVERY step: (a) reuse forcing - a scratch store takes every node off the free list and overwrites it with foreign data; (b) the complete contents of every open handle of every store are compared with per-handle models; (c) with the verif hooks, no node reachable from a live version is on a free list, zeroed, or carries the reclaim mark of a version that can die first, and no live version handle / root nodeLoc is on its free list. Parallel cases: 8 goroutines pin and release the SAME version through the original handle and 1-3 snapshot handles in true parallelism (4000 lookups/visits each); afterwards the version's pin count (hook) must be exactly one per open handle, all handles must read correctly, and the snapshots are then released one by one with mutations in between. Non-trivial = at least one version was released (snapshot/visit/collection/store) while another handle sharing nodes stayed open and was read afterwards, and nodes were actually recycled; distinct = distinct op-trace hash.",
+		Rule: "case = 2-3 stores (file-backed and memory-only) in one process, sharing gkvlite's package-global free lists, each with 1-3 collections; every step picks a store and performs one operation: mutations, visits that are SUSPENDED inside their callback while later steps run and are resumed afterwards (readers holding version pins), snapshots (and snapshots of snapshots) released in arbitrary order, SetCollection on existing names, RemoveCollection, Close, re-open, FlushRevert, and mutations that fail half way because one file read fails (after which later successful mutations supersede the touched nodes). After EVERY step: (a) reuse forcing - a scratch store takes every node off the free list and overwrites it with foreign data; (b) the complete contents of every open handle of every store are compared with per-handle models; (c) with the verif hooks, no node reachable from a live version is on a free list, zeroed, or carries the reclaim mark of a version that can die first, and no live version handle / root nodeLoc is on its free list. Parallel cases: 8 goroutines pin and release the SAME version through the original handle and 1-3 snapshot handles in true parallelism (4000 lookups/visits each); afterwards the version's pin count (hook) must be exactly one per open handle, all handles must read correctly, and the snapshots are then released one by one with mutations in between. Release-under-visit cases (memory-only stores): a visit is in flight on a snapshot / a snapshot of a snapshot / the original whose other owners have already moved on, and from inside its callback the last owner is released (snapshot.Close, original.Close, RemoveCollection) and a foreign store allocates enough to reuse everything that was freed; the visit must not panic and every item it still delivers must be the next item of the version it started on (stopping early or an error is accepted), and the handles that stay open must read back completely. Non-trivial = at least one version was released (snapshot/visit/collection/store) while another handle sharing nodes stayed open and was read afterwards, and nodes were actually recycled; distinct = distinct op-trace hash.",
 		Assumptions: []string{
 			"handles of replaced/removed collections and closed stores are not used again, except by a visit that was already in flight",
 			"one mutator per store; the suspended readers are blocked, so there is no true parallelism in this check (that is C05's)",
 		},
-		NumCases: func(tier string) int { return pick(tier, 800, 30000) + pick(tier, 24, 600) },
+		NumCases: func(tier string) int { return pick(tier, 800, 30000) + pick(tier, 24, 600) + pick(tier, 400, 12000) },
 		Run:      runC10,
 		Floor: func(tier string, st map[string]int64) string {
-			for _, k := range []string{"op.PinVisit", "op.ResumeVisit", "op.SnapClose", "op.SetCollection.existing", "op.RemoveCollection", "churn.inserts", "walks", "c10.nodes-recycled", "c10.multi-store-cases", "failed-mutations", "c10.parallel-reader-cases"} {
+			for _, k := range []string{"op.PinVisit", "op.ResumeVisit", "op.SnapClose", "op.SetCollection.existing", "op.RemoveCollection", "churn.inserts", "walks", "c10.nodes-recycled", "c10.multi-store-cases", "failed-mutations", "c10.parallel-reader-cases", "c10.release-under-visit-cases", "c10.release-under-visit/completed"} {
 				if st[k] == 0 {
 					return "no " + k + " observed"
 				}
@@ -38,6 +38,9 @@ func runC10(ctx *Ctx, idx int) Result {
 	seed := CaseSeed(ctx.Seed, "C10", idx)
 	r := gen.New(seed)
 	SeedGlobalRand(seed)
+	if idx >= pick(ctx.Tier, 800, 30000)+pick(ctx.Tier, 24, 600) {
+		return runC10ReleaseUnderVisit(ctx, idx, r)
+	}
 	if idx >= pick(ctx.Tier, 800, 30000) {
 		return runC10Parallel(ctx, idx, r)
 	}
